@@ -1,9 +1,9 @@
-\* (D) routing: six reactions, all 1 250 caller dictionaries (T, optional P, blocks for any subset of
-\* {A, AB, D, Z} with contents {}, {T}, {P}, {T,P}), every public call once
+\* (D) routing, quick tier: six reactions, 512 caller dictionaries (T, optional P, blocks for any subset of
+\* {A, AB, D, Z} with contents {}, {T}, {T,P}; MC_Reaction_route_full.cfg adds {P}: 1 250), every public call once
 SPECIFICATION Spec
 CONSTANTS
   Rxns <- RxnSmall
-  KwParts <- AllKwParts
+  KwParts <- CaseKwParts
   ProbeNames <- MCProbeNames
   ProbeBlocks <- MCProbeBlocks
   Variant = "asbuilt"
